@@ -103,19 +103,21 @@ package redisemu
 
 //@ func dataStoreCommand.unlockAndUnblock
 //@ prop C08 C16 C11
-//@ ghostentry gWakeRequested = uk.elements
-//@ ghostentry gWakeKey = uk.keyName
 //@ requires dsc != nil && dsc.ds != nil && dsc.ds.waitingClients != nil && uk != nil && dsc.id != 0
 //@ requires [C08,C16] isheld: held
 //@ modifies ghost.held ghost.gWakeRequested ghost.gWakeKey waitTable objectWaitList wakeSignal signalListTuple
 //@ ensures lockMode(dsc)
 //@ ensures [C11] requested: gWakeRequested == uk.elements && gWakeKey == uk.keyName
 
+// the wake-up request is recorded where it is made (the call into the wait
+// table), so a path of unlockAndUnblock that skips the call does not count
 //@ func dataStore.unblockListUnlocked
-//@ trusted wakes waiters of a key (C11); touches only the wait table
+//@ trusted wakes waiters of a key (C11); touches only the wait table (waitTable.unblock is verified separately)
 //@ requires ds != nil && ds.waitingClients != nil
 //@ requires [C08,C16] locked: held
-//@ modifies waitTable objectWaitList wakeSignal signalListTuple
+//@ modifies waitTable objectWaitList wakeSignal signalListTuple ghost.gWakeRequested ghost.gWakeKey
+//@ effect gWakeRequested = elements
+//@ effect gWakeKey = keyName
 
 //@ func dataStoreCommand.acquireExclusive
 //@ prop C08 C16 C09
@@ -241,6 +243,13 @@ package redisemu
 //@ ensures result != nil && result.id == newId && result.flags == sk.flags && result.expiresAt == sk.expiresAt
 //@ ensures [C06] wf: skWF(result)
 //@ loopinv held
+// C06: the copy is independent of the original. Slices are values in the
+// verifier's memory model (two slices never alias there), so independence of
+// byte payloads is stated as an ownership condition: what is stored in the copy
+// is a slice this call made itself, of the same length and content.
+//@ assertbefore "payload = bytes" [C06] copy.fresh.bytes: madehere(bytes) && len(bytes) == len(skBytes) && allsel(k, 0, len(bytes), bytes[k] == skBytes[k])
+//@ assertbefore "item := &listItem{" [C06] copy.fresh.element: madehere(element) && len(element) == len(p.element) && allsel(k, 0, len(element), element[k] == p.element[k])
+//@ assertbefore "payload = newDict" [C06] copy.fresh.table: newDict != nil && newDict != m
 
 //@ func dataStore.getLiveStoreKey
 //@ prop C08 C16 C07
